@@ -1470,6 +1470,9 @@ func c06Gen(r *rand.Rand, tier string, emit func(string)) {
 	}
 	emit("c06 multicode 0")
 	emit("c06 multicode 1")
+	for _, n := range []int{17, 18, 19, 33, 64, 100} { // vertex labels beyond 16: byte arithmetic in the decoder
+		emit(c06Multicode(randomEG(r, n, 0.15)))
+	}
 	emit(c06Graph6(randomEG(r, 63, 0.2), false)) // four-byte size field
 	emit(c06Sparse6(randomEG(r, 70, 0.05)))
 	// 5. a few larger members of each family
